@@ -35,6 +35,7 @@ var _ net.Listener = (*GRPCServerMuxer)(nil)
 type GRPCServerMuxer struct {
 	addr   net.Addr
 	logger hclog.Logger
+	ln     net.Listener
 
 	sessionErrCh chan error
 	sess         *yamux.Session
@@ -49,6 +50,7 @@ func NewGRPCServerMuxer(logger hclog.Logger, ln net.Listener) *GRPCServerMuxer {
 	m := &GRPCServerMuxer{
 		addr:   ln.Addr(),
 		logger: logger,
+		ln:     ln,
 
 		sessionErrCh: make(chan error),
 
@@ -144,12 +146,20 @@ func (m *GRPCServerMuxer) Addr() net.Addr {
 }
 
 func (m *GRPCServerMuxer) Close() error {
+	// Close the listener the muxer was built on as well. It only ever accepts
+	// the one connection that carries the session, and for a Unix socket
+	// closing it is what removes the socket file.
+	lnErr := m.ln.Close()
+
 	session, err := m.session()
 	if err != nil {
 		return err
 	}
 
-	return session.Close()
+	if err := session.Close(); err != nil {
+		return err
+	}
+	return lnErr
 }
 
 func (m *GRPCServerMuxer) Enabled() bool {
